@@ -5,6 +5,8 @@ import (
 	"encoding/json"
 	"fmt"
 	"io"
+	"os"
+	"runtime/debug"
 
 	"github.com/ipfs/go-cid"
 	unixfsnode "github.com/ipfs/go-unixfsnode"
@@ -17,6 +19,7 @@ import (
 	"verif/harness/gen"
 	"verif/harness/model"
 	"verif/harness/store"
+	"verif/harness/xplore"
 )
 
 func init() {
@@ -309,7 +312,135 @@ func (c c05Case) runShard(viol func(sig, detail string), r *core.Run) {
 	}
 }
 
+// c05Concurrent: two goroutines, each with its own reader on ONE shared lazily
+// reified node, read two disjoint small ranges; every interleaving within the
+// preemption bound is executed under the cooperative scheduler and the blocks
+// requested by both together must stay within what the two ranges need.
+func c05Concurrent(r *core.Run) {
+	type rng struct{ a, b int64 }
+	files := []fileCase{
+		{Writer: "ours", W: 2, Chunker: "size-3", L: 13, K: 3, Pattern: "distinct"},
+		{Writer: "balanced/raw=false/v1=false", W: 2, Chunker: "size-3", L: 12, K: 3, Pattern: "distinct"},
+	}
+	pairs := [][2]rng{{{0, 2}, {11, 12}}, {{7, 8}, {0, 1}}, {{4, 6}, {4, 6}}}
+	bound := 2
+	var execs int64
+	for _, fc := range files {
+		s, root, _, err := fc.build()
+		if err != nil {
+			r.Violate("build-error", err.Error(), nil)
+			continue
+		}
+		tree, err := model.FileTree(s, root)
+		if err != nil {
+			r.InternalError(err.Error())
+			continue
+		}
+		content := tree.Content()
+		ls := lsFor(s)
+		rn, err := loadRoot(ls, root)
+		if err != nil {
+			r.InternalError(err.Error())
+			continue
+		}
+		for _, pr := range pairs {
+			pr := pr
+			allowed := tree.Needed(pr[0].a, pr[0].b)
+			for k := range tree.Needed(pr[1].a, pr[1].b) {
+				allowed[k] = true
+			}
+			desc := fmt.Sprintf("%s, concurrent reads of [%d,%d) and [%d,%d)", fc, pr[0].a, pr[0].b, pr[1].a, pr[1].b)
+			shared := map[string]bool{}
+			for round := 0; round < 6; round++ {
+				grew := false
+				pending := map[string]bool{}
+				ex := &xplore.Explorer{Bound: bound, Horizon: 20000, Replay: 1, MaxExecs: 200000, OnDiverge: func(ch []int, a, b string) {
+					r.InternalError(fmt.Sprintf("nondeterministic replay %s %v: %q vs %q", desc, ch, a, b))
+				}}
+				ex.Explore(func(x *xplore.Ctx) string {
+					n, err := openVia("unixfs", ls, rn)
+					if err != nil {
+						return "reify-error"
+					}
+					lb, ok := n.(datamodel.LargeBytesNode)
+					if !ok {
+						return "not-large"
+					}
+					s.ResetLogs()
+					s.OnRead = func(cid.Cid, int) error { schedLoadPoint(); return nil }
+					body := func(g rng) func() string {
+						return func() string {
+							rs, err := lb.AsLargeBytes()
+							if err != nil {
+								return "err:" + err.Error()
+							}
+							if _, err := rs.Seek(g.a, io.SeekStart); err != nil {
+								return "err:" + err.Error()
+							}
+							buf := make([]byte, g.b-g.a)
+							if _, err := io.ReadFull(rs, buf); err != nil {
+								return "err:" + err.Error()
+							}
+							return fmt.Sprintf("%x", buf)
+						}
+					}
+					old := debug.SetGCPercent(-1)
+					sc := runScheduled(x, shared, nil, []func() string{body(pr[0]), body(pr[1])})
+					debug.SetGCPercent(old)
+					s.OnRead = nil
+					for st := range sc.promoted {
+						if !shared[st] {
+							pending[st] = true
+							grew = true
+						}
+					}
+					for i, t := range sc.threads {
+						want := fmt.Sprintf("%x", content[pr[i].a:pr[i].b])
+						if t.panicv != nil {
+							r.Violate("panic concurrent-range-read", fmt.Sprintf("%s: %v (choices %v)", desc, t.panicv, x.Choices), nil)
+						} else if t.result != want {
+							r.Violate("range-bytes concurrent", fmt.Sprintf("%s: thread %d got %s want %s (choices %v)", desc, i, t.result, want, x.Choices), nil)
+						}
+					}
+					if xr := extraReads(s.Reads(), allowed); len(xr) > 0 {
+						r.Violate("over-fetch concurrent "+fc.Writer, fmt.Sprintf("%s: requested %s; needed by neither range: %s (schedule choices %v)", desc, shortList(s.Reads()), shortList(xr), x.Choices), map[string]any{"file": fc, "choices": append([]int{}, x.Choices...)})
+					}
+					return fmt.Sprint(len(s.Reads()))
+				}, func(res xplore.Result) {
+					if res.Panic != nil {
+						r.Violate("panic scheduler", fmt.Sprint(res.Panic), nil)
+					}
+				})
+				execs += int64(ex.Stats.Executions)
+				r.Transitions.Add(int64(ex.Stats.ChoicePoints))
+				if !grew {
+					break
+				}
+				next := map[string]bool{}
+				for k := range shared {
+					next[k] = true
+				}
+				for k := range pending {
+					next[k] = true
+				}
+				shared = next
+			}
+			r.States.Add(1)
+			r.Distinct(desc)
+		}
+	}
+	r.Evaluations.Add(execs)
+	r.Set("concurrent_schedules_executed", execs)
+	r.Set("concurrent_preemption_bound_completed", bound)
+	r.Set("instrumentation", os.Getenv("VERIF_INSTR"))
+}
+
 func runC05(r *core.Run) {
+	if overlayActive {
+		c05Concurrent(r)
+	} else {
+		r.Cap("plain build: the concurrent range-read part needs the instrumented overlay (run through run.sh)")
+	}
 	r.Rule("bounded-exhaustive: every range 0<=a<b<=L of every file shape (w in {2,3}, chunk 3; this builder + reference writers) via Seek+ReadFull, end-relative positioning and a subset-matcher traversal; every pair of short requests [a,b) then [c,d) on one reader (second request positioned with a relative seek); every member/non-member lookup on every sharded directory of the universe subsets (cold and warm cache); every path of every small tree; oracle: requested links ⊆ blocks whose span intersects the range + ancestors / shards on the hash path / blocks on the path (independent model over stored blocks)")
 	r.Assume("file DAGs are those produced by the two writers (interior nodes carry BlockSizes)")
 	var cases []c05Case
